@@ -72,6 +72,7 @@ type interpreter struct {
 	params       map[string]int
 	condSignals  int
 	opaqueInts   bool
+	jsonSyms     map[string]jsonSym
 	pureCache    map[*ssa.Function]purity
 	noMerge      bool
 	mergeDepth   int
